@@ -445,6 +445,9 @@ def run(prog, ctx):
     if verdict:
         n_t += 1
     res.rule("C06.T", n_t, 4, "to_sketch obligations")
+    # the union dispatches on the flavor of its input (sparse sources are read from their pair table only): the flavor thresholds are
+    # the published fractions at every boundary count (C05.F, by value)
+    C.import_rules(res, prog, ctx, "C06.F", "C05", ("C05.F",), "flavor of the input sketch", 0)
     res.explanation = ("structural rules over the %d functions reachable from CpcUnion::{update,to_sketch}: adoption guard, reduce_k ordering and "
                        "lg_k store, OR-only masked stores with destination-lg agreement at every call site, to_sketch bookkeeping" % len(reach))
     res.not_decided = "bitwise OR-equality of the result matrix and order independence as values"
